@@ -510,3 +510,163 @@ Example ex_interleaved_null :
   let s := drun (dinit 3 ex_alls [[DDeq 0 [] []]; [DEnq 1 9%N]]) [0;0;0;1;0;0]%nat in
   map k_out (d_tasks s) = [[None]; []] /\ d_qs s = [[];[9%N];[]].
 Proof. vm_compute. repeat split. Qed.
+
+(* ------------------------------------------------------------------------------------------------------ *)
+(* the sequential acceptor seq_deq_ok is sound for a dequeue that runs alone                               *)
+
+Lemma solo_step_ops : forall s t k,
+  nth_error (d_tasks s) t = Some k ->
+  exists k1, nth_error (d_tasks (dstep' s t)) t = Some k1 /\ (length (k_ops k1) <= length (k_ops k))%nat.
+Proof.
+  intros s t k Ek. unfold dstep'. destruct (dstep s t) as [s'|] eqn:E.
+  - destruct (dstep_R _ _ _ E) as [k0 [Ek0 R]]. rewrite Ek in Ek0. injection Ek0 as <-.
+    destruct R as [Hr Ht|i rest x qs' Hr Ht Hq|i rest Hr Ht Hq|there x ops Hr Ho|me pre lcs ops Hr Ho];
+      cbn [d_tasks]; eexists; (split; [eapply nth_error_set_nth_same, Ek|]); cbn [k_ops];
+      try rewrite Ho; cbn [length]; lia.
+  - exists k. split; [exact Ek|lia].
+Qed.
+
+Lemma solo_ops_mono : forall m s t k k',
+  nth_error (d_tasks s) t = Some k -> nth_error (d_tasks (drun s (repeat t m))) t = Some k' ->
+  (length (k_ops k') <= length (k_ops k))%nat.
+Proof.
+  induction m as [|m IH]; intros s t k k' Ek Ek'.
+  - cbn [repeat drun fold_left] in Ek'. rewrite Ek in Ek'. injection Ek' as <-. lia.
+  - change (drun s (repeat t (S m))) with (drun (dstep' s t) (repeat t m)) in Ek'.
+    destruct (solo_step_ops s t k Ek) as [k1 [Ek1 Hl]].
+    assert (H := IH _ _ _ _ Ek1 Ek'). lia.
+Qed.
+
+(* an idle task that has not consumed an operation is unchanged *)
+Lemma solo_idle_phase : forall m s t k k',
+  nth_error (d_tasks s) t = Some k -> k_run k = false ->
+  nth_error (d_tasks (drun s (repeat t m))) t = Some k' ->
+  length (k_ops k') = length (k_ops k) -> k' = k.
+Proof.
+  induction m as [|m IH]; intros s t k k' Ek Hr Ek' Hl.
+  - cbn [repeat drun fold_left] in Ek'. rewrite Ek in Ek'. injection Ek' as <-. reflexivity.
+  - change (drun s (repeat t (S m))) with (drun (dstep' s t) (repeat t m)) in Ek'.
+    destruct (k_ops k) as [|op ops] eqn:Eo.
+    + assert (E : dstep' s t = s) by (unfold dstep', dstep; rewrite Ek, Hr, Eo; reflexivity).
+      rewrite E in Ek'. apply (IH s t k k' Ek Hr Ek'). rewrite Eo. exact Hl.
+    + exfalso.
+      assert (E : exists k1, nth_error (d_tasks (dstep' s t)) t = Some k1 /\ k_ops k1 = ops).
+      { unfold dstep', dstep. rewrite Ek, Hr, Eo.
+        destruct op as [there x|me pre lcs]; cbn [d_tasks]; eexists;
+          (split; [eapply nth_error_set_nth_same, Ek|reflexivity]). }
+      destruct E as [k1 [Ek1 Ho1]].
+      assert (H := solo_ops_mono _ _ _ _ _ Ek1 Ek'). rewrite Ho1 in H. cbn [length] in Hl. lia.
+Qed.
+
+(* a running dequeue, alone: what it returns, in terms of the sub-queues at its start *)
+Lemma solo_run_phase : forall m s t k k',
+  nth_error (d_tasks s) t = Some k -> k_run k = true ->
+  nth_error (d_tasks (drun s (repeat t m))) t = Some k' -> k_run k' = false ->
+  length (k_ops k') = length (k_ops k) ->
+  exists r, k_out k' = k_out k ++ [r] /\
+    ((r = None /\ forall i, In i (k_todo k) -> qpop (d_qs s) i = None) \/
+     (exists x i pre' post qs', r = Some x /\ k_todo k = pre' ++ i :: post /\
+        (forall j, In j pre' -> qpop (d_qs s) j = None) /\ qpop (d_qs s) i = Some (x, qs'))).
+Proof.
+  induction m as [|m IH]; intros s t k k' Ek Hr Ek' Hr' Hl.
+  - cbn [repeat drun fold_left] in Ek'. rewrite Ek in Ek'. injection Ek' as <-. congruence.
+  - change (drun s (repeat t (S m))) with (drun (dstep' s t) (repeat t m)) in Ek'.
+    destruct (k_todo k) as [|i0 rest] eqn:Et.
+    + pose (k1 := mkTask [] (k_seen k) false (k_ops k) (k_out k ++ [None])).
+      assert (E1 : nth_error (d_tasks (dstep' s t)) t = Some k1).
+      { unfold dstep', dstep. rewrite Ek, Hr, Et. cbn [d_tasks]. eapply nth_error_set_nth_same, Ek. }
+      assert (Hk' : k' = k1) by (apply (solo_idle_phase m _ t k1 k' E1 eq_refl Ek'); exact Hl).
+      subst k'. exists None. split; [reflexivity|]. left. split; [reflexivity|]. intros i [].
+    + destruct (qpop (d_qs s) i0) as [[x qs']|] eqn:Eq.
+      * pose (k1 := mkTask [] (k_seen k) false (k_ops k) (k_out k ++ [Some x])).
+        assert (E1 : nth_error (d_tasks (dstep' s t)) t = Some k1).
+        { unfold dstep', dstep. rewrite Ek, Hr, Et, Eq. cbn [d_tasks]. eapply nth_error_set_nth_same, Ek. }
+        assert (Hk' : k' = k1) by (apply (solo_idle_phase m _ t k1 k' E1 eq_refl Ek'); exact Hl).
+        subst k'. exists (Some x). split; [reflexivity|]. right.
+        exists x, i0, [], rest, qs'. split; [reflexivity|]. split; [reflexivity|].
+        split; [intros j []|exact Eq].
+      * pose (k1 := mkTask rest (i0 :: k_seen k) true (k_ops k) (k_out k)).
+        assert (E1 := qpop_None_stable s t k i0 rest Ek Hr Et Eq). fold k1 in E1.
+        assert (Ek1 : nth_error (d_tasks (dstep' s t)) t = Some k1).
+        { rewrite E1. cbn [d_tasks]. eapply nth_error_set_nth_same, Ek. }
+        destruct (IH _ t k1 k' Ek1 eq_refl Ek' Hr' Hl) as [r [Ho Hcase]].
+        assert (Eqs : d_qs (dstep' s t) = d_qs s) by (rewrite E1; reflexivity).
+        rewrite Eqs in Hcase. cbn [k1 k_todo k_out] in Ho, Hcase.
+        exists r. split; [exact Ho|].
+        destruct Hcase as [[Hn Hall]|[x [i [pre' [post [qs' [Hx [Hsplit [Hpre Hq]]]]]]]]].
+        -- left. split; [exact Hn|]. intros i [<-|Hi]; [exact Eq|apply Hall, Hi].
+        -- right. exists x, i, (i0 :: pre'), post, qs'. split; [exact Hx|].
+           split; [rewrite Hsplit; reflexivity|]. split; [|exact Hq].
+           intros j [<-|Hj]; [exact Eq|apply Hpre, Hj].
+Qed.
+
+Lemma qpop_None_empty : forall qs,
+  (forall i, (i < length qs)%nat -> qpop qs i = None) -> forallb is_empty qs = true.
+Proof.
+  induction qs as [|q qs IH]; intros H; [reflexivity|]. cbn [forallb]. apply andb_true_iff. split.
+  - specialize (H O ltac:(cbn [length]; lia)). cbn [qpop] in H. destruct q; [reflexivity|discriminate H].
+  - apply IH. intros i Hi. specialize (H (S i) ltac:(cbn [length]; lia)). cbn [qpop] in H.
+    destruct (qpop qs i) as [[x qs']|]; [discriminate H|reflexivity].
+Qed.
+
+Lemma qpop_None_nth : forall qs i, qpop qs i = None -> is_empty (nth i qs []) = true.
+Proof.
+  induction qs as [|q qs IH]; intros i H; [destruct i; reflexivity|].
+  destruct i as [|i]; cbn [qpop nth] in *.
+  - destruct q; [reflexivity|discriminate H].
+  - apply IH. destruct (qpop qs i) as [[x qs']|]; [discriminate H|reflexivity].
+Qed.
+
+Lemma qpop_Some_nth : forall qs i x qs',
+  qpop qs i = Some (x, qs') -> (i < length qs)%nat /\ exists q', nth i qs [] = x :: q'.
+Proof.
+  induction qs as [|q qs IH]; intros i x qs' H; [destruct i; discriminate H|].
+  destruct i as [|i]; cbn [qpop nth length] in *.
+  - destruct q as [|y q']; [discriminate H|]. injection H as -> _. split; [lia|]. exists q'. reflexivity.
+  - destruct (qpop qs i) as [[y qs'']|] eqn:E; [|discriminate H].
+    destruct (IH i y qs'' E) as [Hl Hq]. injection H as -> _. split; [lia|exact Hq].
+Qed.
+
+Theorem dq_seq_accept_sound : forall n s t k me pre lcs ops m k',
+  alls_ok n (d_alls s) = true -> (me < n)%nat -> length (d_qs s) = n ->
+  nth_error (d_tasks s) t = Some k -> k_run k = false -> k_ops k = DDeq me pre lcs :: ops ->
+  nth_error (d_tasks (drun s (repeat t m))) t = Some k' -> k_run k' = false -> k_ops k' = ops ->
+  exists r, k_out k' = k_out k ++ [r] /\ seq_deq_ok (d_qs s) me r = true.
+Proof.
+  intros n s t k me pre lcs ops m k' Hok Hme Hlen Ek Hr Ho Ek' Hr' Ho'.
+  destruct m as [|m].
+  - exfalso. cbn [repeat drun fold_left] in Ek'. rewrite Ek in Ek'. injection Ek' as <-.
+    rewrite Ho in Ho'. apply (f_equal (@length dop)) in Ho'. cbn [length] in Ho'. lia.
+  - change (drun s (repeat t (S m))) with (drun (dstep' s t) (repeat t m)) in Ek'.
+    pose (k1 := mkTask (attempts me pre (nth me (d_alls s) []) lcs) [] true ops (k_out k)).
+    assert (E1 : dstep' s t = mkD (d_qs s) (d_alls s) (set_nth (d_tasks s) t k1) (d_enq s) (d_deq s)).
+    { unfold dstep', dstep. rewrite Ek, Hr, Ho. reflexivity. }
+    assert (Ek1 : nth_error (d_tasks (dstep' s t)) t = Some k1).
+    { rewrite E1. cbn [d_tasks]. eapply nth_error_set_nth_same, Ek. }
+    destruct (solo_run_phase m _ t k1 k' Ek1 eq_refl Ek' Hr') as [r [Hout Hcase]].
+    { rewrite Ho'. reflexivity. }
+    assert (Eqs : d_qs (dstep' s t) = d_qs s) by (rewrite E1; reflexivity).
+    rewrite Eqs in Hcase. cbn [k1 k_todo k_out] in Hout, Hcase.
+    exists r. split; [exact Hout|].
+    destruct Hcase as [[-> Hall]|[x [i [pre' [post [qs' [-> [Hsplit [Hpre Hq]]]]]]]]]; cbn [seq_deq_ok].
+    + apply qpop_None_empty. intros i Hi. apply Hall.
+      apply (alls_ok_attempts n); [exact Hok|exact Hme|lia].
+    + destruct (qpop_Some_nth _ _ _ _ Hq) as [Hil [q' Hnth]].
+      destruct pre' as [|j pre'].
+      * unfold attempts in Hsplit. cbn [app] in Hsplit. injection Hsplit as <- _.
+        rewrite Hnth. cbn [is_empty head_is]. apply N.eqb_refl.
+      * unfold attempts in Hsplit. cbn [app] in Hsplit. injection Hsplit as <- _.
+        rewrite (qpop_None_nth _ _ (Hpre me (or_introl eq_refl))).
+        apply existsb_exists. exists (nth i (d_qs s) []). split; [apply nth_In, Hil|].
+        rewrite Hnth. cbn [head_is]. apply N.eqb_refl.
+Qed.
+
+(* shepherd 0's own sub-queue is empty, 4 is at the head of sub-queue 1: the solo dequeue returns 4, accepted;
+   NULL would be rejected, and so would 5 (not a head) *)
+Example ex_seq_accept :
+  let s := mkD [[];[4;5];[6]]%N ex_alls [mkTask [] [] false [DDeq 0 [] []] []] [4;5;6]%N [] in
+  map k_out (d_tasks (drun s (repeat 0%nat 3))) = [[Some 4%N]] /\
+  seq_deq_ok (d_qs s) 0 (Some 4%N) = true /\ seq_deq_ok (d_qs s) 0 (Some 6%N) = true /\
+  seq_deq_ok (d_qs s) 0 None = false /\ seq_deq_ok (d_qs s) 0 (Some 5%N) = false /\
+  seq_deq_ok (d_qs s) 1 (Some 6%N) = false.
+Proof. vm_compute. repeat split. Qed.
